@@ -1,3 +1,56 @@
-import Percival.Model.Events
+import Percival.Proofs.EventsImm
+import Percival.Proofs.EventsTQ
+/-!
+# C05 — event loop: dispatch order, progress and status propagation
+
+`Spec.Events.C05` is the monitor that encodes the property statement over observable traces (the
+implementation's traces are judged by it on every run of the check).  Proved here so far: the
+immediate-event machinery (`heads[32]` + `minq`) refines one stable priority queue, and the
+timeout handed to `poll` is exactly the time to the earliest deadline rounded up to a millisecond.
+-/
 namespace Percival.C05
+open Percival.Spec.Events Percival.Model.Events
+open Percival.Proofs.EventsImm Percival.Proofs.EventsTQ
+
+/-- **P2 (`immediate_fifo_refines`).** `events_immediate.c`'s 32 FIFO queues plus `minq` implement one
+    stable priority queue: if the queues hold the list `l` (in registration order; `RQ q l`), then
+    register appends, cancel removes that registration, and `events_immediate_get` returns exactly
+    `C05.nextImm l` — an element of least priority value, the oldest of that priority — and removes it;
+    it returns NULL exactly on the empty queue. -/
+theorem immediate_fifo_refines (q : Imm) (l : List C05.Imm) (h : RQ q l) :
+    (∀ id prio, prio < 32 → ∃ q', immRegister q id prio = some q' ∧ RQ q' (l ++ [⟨id, prio⟩])) ∧
+    (∀ id p, IdsNodup l → (⟨id, p⟩ : C05.Imm) ∈ l →
+        ∃ q', immCancel q id p = some q' ∧ RQ q' (l.filter (fun i => i.id != id))) ∧
+    ((l = [] ∧ (immGet q).2 = none ∧ RQ (immGet q).1 []) ∨
+     (∃ j, C05.nextImm l = some j ∧ (immGet q).2 = some j.id ∧ RQ (immGet q).1 (l.erase j))) :=
+  ⟨fun id prio hp => immRegister_rq q l id prio h hp,
+   fun id p hn hm => immCancel_rq q l id p h hn hm,
+   immGet_rq q l h⟩
+
+/-- what "next" means: least priority value, first-in-first-out within it -/
+theorem nextImm_least_oldest (l : List C05.Imm) (j : C05.Imm) (h : C05.nextImm l = some j) :
+    j ∈ l ∧ (∀ i ∈ l, j.prio ≤ i.prio) ∧ ∃ rest, proj l j.prio = j.id :: rest :=
+  let ⟨h1, h2, rest, h3, _⟩ := nextImm_spec l j h
+  ⟨h1, h2, rest, h3⟩
+
+example : RQ {} [] := rq_init
+
+example : C05.nextImm [⟨1, 5⟩, ⟨2, 3⟩, ⟨3, 5⟩, ⟨4, 3⟩] = some ⟨2, 3⟩ := by decide
+
+/-- three registrations with two priorities: the queues hold them, and `get` releases 2 (priority 3) first -/
+example : ∃ q1 q2 q3, immRegister {} 1 5 = some q1 ∧ immRegister q1 2 3 = some q2 ∧ immRegister q2 3 5 = some q3 ∧
+    (immGet q3).2 = some 2 := by
+  refine ⟨_, _, _, rfl, rfl, rfl, ?_⟩
+  decide +kernel
+
+/-- **timeout.** For a timer due at `dl` µs with the clock at `clock` µs, `events_timer_min` followed by
+    `events_network_select`'s conversion yields exactly `⌈(dl - clock)/1000⌉` ms (saturating at INT_MAX
+    from INT_MAX/1000 seconds on), and 0 once the timer is due. -/
+theorem select_timeout_ceil (clock dl : Nat) :
+    selectTimeout (some (timerDiff clock ((dl / 1000000 : Nat) : Int) ((dl % 1000000 : Nat) : Int))) = C05.ceilMs (dl - clock) :=
+  selectTimeout_timerDiff clock dl
+
+example : selectTimeout (some (timerDiff 1500 0 2501)) = 2 ∧ selectTimeout (some (timerDiff 1500 0 2500)) = 1 ∧
+    selectTimeout (some (timerDiff 3000 0 2500)) = 0 ∧ selectTimeout none = -1 := by decide
+
 end Percival.C05
